@@ -26,15 +26,15 @@ def r1_open_verified(ctx):
     F = ctx.facts
     T = ctx.tracer
     out = []
-    # ProcfsHandle::open and open_base: every raw lookup result is verified before it is used or returned
-    for fn in (PH + "::open", PH + "::open_base"):
+    # every raw procfs lookup in procfs.rs is verified before its result is used or returned
+    fns = sorted({b.path for b in F.fn_bodies() if b.file == "src/procfs.rs" and list(b.calls(*LOOKUP))})
+    if len(fns) < 2:
+        out.append(violated("C06.R1", "procfs.rs:lookups", "", "expected resolver lookups in at least open_base and the open path, found %s" % fns))
+    for fn in fns:
         b = F.body(fn)
         srcs = list(b.calls(*LOOKUP))
-        if not srcs:
-            out.append(violated("C06.R1", "%s:lookup" % fn, b.where(), "no resolver lookup found (anchor drift)"))
-            continue
         for n, s in enumerate(srcs):
-            key = "%s:lookup:%d" % (fn, n)
+            key = "%s:lookup:%d" % (fn_key(b), n)
             # idiom 2: result consumed by and_then(verifying closure)
             consumer = None
             for t in b.calls("std::result::Result::<T, E>::and_then"):
